@@ -483,7 +483,8 @@ theorem delete_repr {h : Heap} {as xs} (r : Repr h as xs) (x : Int) :
       refine ⟨h', .ok, (0 :: as').erase a, (y :: xs').erase x, ?_, ⟨?_, r.nodup.erase a, ?_⟩, ?_⟩
       · subst hv
         have hy' : ¬ y = nd.val := hy
-        simp [step, hf, e0, delete, ListRes.deref, load, hp, h0, hnext, hy', hl]
+        have hne : ¬ (0 = a) := by simpa using ha0
+        simp [step, hf, e0, delete, ListRes.deref, load, hp, h0, hnext, hy', hne, hl]
       · simp [ha0]
       · simpa [List.erase_cons, ha0, hyx] using hch
       · simp only [hx, hl1, if_true]
